@@ -740,7 +740,7 @@ func SplitCommands(raw []byte) [][]string {
 					break
 				}
 				l, err := strconv.Atoi(string(b[1:e]))
-				if err != nil || l < 0 || e+2+l+2 > len(b) {
+				if err != nil || l < 0 || l > len(b) || e+2+l+2 > len(b) {
 					okc = false
 					break
 				}
